@@ -342,6 +342,7 @@ def coq_text(T):
     w(f"Definition ops_base : list positive := {plist(T['op_base'])}.")
     structured = [n for n in T["op_all"] if reps[n].structured]
     w(f"Definition ops_structured : list positive := {plist(structured)}.")
+    w(f"Definition ops_structured_square : list positive := {plist([n for n in structured if reps[n].square])}.")
     for n in T["rep_names"]:
         if reps[n].sort != "op":
             w(f"Definition r_{n} : positive := {rid[n]}%positive.")
